@@ -1,0 +1,16 @@
+//go:build verif
+
+package sharding
+
+// VerifSchedulerConfigs converts parsed scheduler specs into the internal
+// SchedulerConfig list exactly the way applyShardingConfig does (deprecated
+// scalars synthesised into the policy chain, then the spec conversion), so an
+// external harness can build a ShardingManager through the real config path.
+func VerifSchedulerConfigs(cfg *ShardingConfig) []SchedulerConfig {
+	out := make([]SchedulerConfig, 0, len(cfg.SchedulerConfigs))
+	for _, spec := range cfg.SchedulerConfigs {
+		applyPolicyDefaults(&spec)
+		out = append(out, schedulerConfigFromSpec(spec))
+	}
+	return out
+}
